@@ -27,7 +27,7 @@ ASSUMPTIONS = [
     "attempt's timestamp; unvalidated runs are repeated",
     'the 60 s read timeout (accept-then-silent) is exercised in the thorough tier only',
 ]
-SUP_VERBS = ('supervisor', 'supervisor-slowsdk')
+SUP_VERBS = ('supervisor', 'supervisor-slowsdk', 'supervisor-rejcfg')
 TRUSTED = ['harness net.Addr whose Network() call marks the start of an attempt; llrp.TestDevice as the scripted reader; testify mock SDK']
 
 
@@ -101,6 +101,8 @@ def replay(res, path):
         only = line.split(' ', 1)[1]
         if line.startswith('supervisor-slowsdk '):
             only = 'slow ' + only
+        if line.startswith('supervisor-rejcfg '):
+            only = 'rej ' + only
         reqs, obs = _run('quick', body.get('seed', 1), only=only)
     else:
         reqs, obs = _run('quick', body.get('seed', 1))
